@@ -239,9 +239,21 @@ func htmlRawPost(in, out string, o mhtml.Minifier) string {
 					quoted[strings.ToLower(a.Name)] = true
 				}
 			}
+			// an attribute the minifier makes out of another one (meta content -> charset) has no namesake in the
+			// input: where every value of the input tag was quoted, every value of the output tag is
+			allQuoted, valued := true, 0
+			for _, a := range ti[i].Attrs {
+				if a.HasVal {
+					valued++
+					allQuoted = allQuoted && a.Quote != 0
+				}
+			}
 			for _, a := range to[i].Attrs {
 				if a.HasVal && a.Quote == 0 && quoted[strings.ToLower(a.Name)] {
 					return fmt.Sprintf("KeepQuotes: attribute %s of <%s> was quoted in the input and is unquoted (%s) in the output", a.Name, ti[i].Name, core.Trunc(a.Value, 40))
+				}
+				if a.HasVal && a.Quote == 0 && allQuoted && valued > 0 {
+					return fmt.Sprintf("KeepQuotes: every attribute value of <%s> was quoted in the input, %s is unquoted (%s) in the output", ti[i].Name, a.Name, core.Trunc(a.Value, 40))
 				}
 			}
 		}
